@@ -45,8 +45,13 @@ func (c *BindingManager) AddBinding(remoteDevice api.DeviceRemoteInterface, data
 		return err
 	}
 
+	// the check for an existing binding and the insertion have to happen in one
+	// critical section, otherwise concurrent requests can both be granted
+	c.mux.Lock()
+	defer c.mux.Unlock()
+
 	// a local feature can only have one remote binding
-	bindings := c.BindingsOnFeature(*serverFeature.Address())
+	bindings := c.bindingsOnFeature(*serverFeature.Address())
 	if len(bindings) > 0 {
 		return errors.New("the server feature already has a binding")
 	}
@@ -64,9 +69,6 @@ func (c *BindingManager) AddBinding(remoteDevice api.DeviceRemoteInterface, data
 		ServerFeature: serverFeature,
 		ClientFeature: clientFeature,
 	}
-
-	c.mux.Lock()
-	defer c.mux.Unlock()
 
 	c.bindingEntries = append(c.bindingEntries, bindingEntry)
 
@@ -222,10 +224,15 @@ func (c *BindingManager) HasLocalFeatureRemoteBinding(localAddress, remoteAddres
 }
 
 func (c *BindingManager) BindingsOnFeature(featureAddress model.FeatureAddressType) []*api.BindingEntry {
-	var result []*api.BindingEntry
-
 	c.mux.Lock()
 	defer c.mux.Unlock()
+
+	return c.bindingsOnFeature(featureAddress)
+}
+
+// the caller has to hold c.mux
+func (c *BindingManager) bindingsOnFeature(featureAddress model.FeatureAddressType) []*api.BindingEntry {
+	var result []*api.BindingEntry
 
 	linq.From(c.bindingEntries).WhereT(func(s *api.BindingEntry) bool {
 		return reflect.DeepEqual(*s.ServerFeature.Address(), featureAddress)
